@@ -1,0 +1,18 @@
+//go:build verif
+
+package api
+
+import "context"
+
+// Verification hook for property C10 (add-only, build tag verif).
+//
+// VerifPayloadContext stores a request payload in the context the way the JWS middleware
+// (verifyAndExtractJWSPayload) does, so that the handlers can be called in-process; the
+// account and key entries use the exported ContextKey type and need no hook.
+func VerifPayloadContext(ctx context.Context, value []byte, isPostAsGet, isEmptyJSON bool) context.Context {
+	return context.WithValue(ctx, payloadContextKey, &payloadInfo{
+		value:       value,
+		isPostAsGet: isPostAsGet,
+		isEmptyJSON: isEmptyJSON,
+	})
+}
